@@ -8,13 +8,20 @@ def build(ctx, v=None):
 def run(ctx):
     ctx.rule = ("MC/GEN: complete (A)+(B) state space of Dsu/DsuImpl for the listed sizes, one replay case per distinct "
                 "state (history + full table of un/check/size/par answers); non-trivial = state whose partition has a "
-                "component of >= 2 elements. I->S: random + adversarial histories recorded from the real DSU, every "
+                "component of >= 2 elements. PROOF: the ghost-weight invariant behind the log-depth clause (weights double along "
+                "parent edges, root weight <= root size) is proved inductive for ALL n by TLAPS (DsuRank.tla, Link / Compress / Reset "
+                "steps) and checked by TLC along the real transitions of (B) (MC_DsuRank). I->S: random + adversarial histories recorded from the real DSU, every "
                 "event judged by DsuTrace (A).")
     binary = build(ctx)
     sizes = ctx.q("{1, 2, 3, 4, 5}", "{1, 2, 3, 4, 5, 6}")
     mc = ctx.cfg("dsu", "MC_Dsu.cfg", {"Sizes": sizes})
     ctx.mc("dsu", "MC_Dsu", mc, workers=ctx.q(4, 8), timeout=ctx.q(600, 3000),
            expect_actions=["DoReset|Reset", "DoUn", "DoPar", "DoCheck", "DoSize"])
+    # log-depth clause for ALL n and all histories: inductive invariant of DsuRank proved by TLAPS, and the same ghost
+    # weights carried along the real (B) transitions, checked by TLC on the complete state space
+    ctx.extra["tlaps_obligations"] = ctx.tlapm("dsu", "DsuRank")
+    ctx.mc("dsu", "MC_DsuRank", ctx.cfg("dsu", "MC_DsuRank.cfg", {"Sizes": sizes}), stage="mc-rank", workers=ctx.q(4, 8), timeout=ctx.q(600, 3000),
+           coverage=False)
     g = ctx.cfg("dsu", "DsuGen.cfg", {"Sizes": sizes})
     cases, n = ctx.gen("dsu", "DsuGen", g, "cases.ndjson", workers=ctx.q(4, 8), timeout=ctx.q(600, 3000), coverage=False)
     v = ctx.replay(binary, "dsu", cases)
@@ -26,6 +33,8 @@ def run(ctx):
     ctx.extra["record_info"] = info
     ctx.assumptions += [
         "TLC 1.8 evaluates the TLA+ specifications correctly",
+        "TLAPS 1.6 (SMT, Zenon, Isabelle back ends) is sound; DsuRank models `par` as a sequence of single pointer updates "
+        "p[x] := p[p[x]] (a superset of the recursive full compression, see the module header)",
         "forest depth is read through the cfg(feature=verif) accessor verif_parents(); component sizes used for the "
         "depth bound are the specification's (replay) or counted by the harness by walking parent pointers (big runs)",
         "big universes (1e4..1e6) are judged on the depth bound only; connectivity is validated up to n = 1024",
